@@ -254,6 +254,11 @@ func ZZC02Audit() {
 	for _, l := range zzC04InferLiterals() {
 		texts = append(texts, "x := [1]\ny := [\"s\"]\nv := "+l+"\nprint (typeof v)\nprint x y\n")
 	}
+	// repetition copies any-typed elements with their concrete type tag
+	texts = append(texts,
+		"r := [1 \"b\" true] * 2\nprint (typeof r[0]) (typeof r[4]) (r[0] == r[3]) r[5].(bool) (r[1] == r[4])\n",
+		"x:any\nx = [1]\nr := [x {k:x}] * 2\nprint (typeof r[0]) (typeof r[3]) r[2].([]num) (r[0] == r[2])\n",
+		"r := [[1 \"b\"]] * 2\nprint (typeof r[1][0]) (r[0] == r[1]) r[1][1].(string)\n")
 	// untyped empty literals of every nesting depth stored in an any, an inferred variable, an
 	// array element and passed to an any parameter: the value carries a complete concrete type
 	wantOut := map[int]string{}
